@@ -82,4 +82,47 @@ func init() {
 		HarnessDef{ID: "H11.1-2", Spec: HarnessSpec{Name: "vH_C11_auth_2cred", Pkg: "pkg/socks5", LoopBound: 12, LoopBounds: map[string]int{"ReadAtLeast": 2}, TimeoutS: 120, Par: 4},
 			What: "same with two configured credentials", Bounds: "as H11.1-1", Outside: "as H11.1-1"},
 	)
+	ral := map[string]int{"ReadAtLeast": 2}
+	reg("C12",
+		HarnessDef{ID: "H12.1-v4", Spec: HarnessSpec{Name: "vH_C12_findaction_ipv4", Pkg: "pkg/socks5", LoopBound: 30, LoopBounds: ral, TimeoutS: 120, Par: 2},
+			What:   "Server.FindAction on every IPv4 CONNECT/UDP-ASSOCIATE request x every user state (absent, unknown, known with each flag set/unset/missing): local destination (127/8, 0.0.0.0, 10/8, 172.16/12, 192.168/16) without the permission => REJECT; public or permitted => DIRECT",
+			Bounds: "all 2^32 addresses and ports, no egress rules configured", Outside: "egress rule lists (H12.2)"},
+		HarnessDef{ID: "H12.1-v6", Spec: HarnessSpec{Name: "vH_C12_findaction_ipv6", Pkg: "pkg/socks5", LoopBound: 30, LoopBounds: ral, TimeoutS: 120, Par: 2},
+			What:   "same for every IPv6 destination incl. ::1, ::, fc00::/7 and IPv4-mapped forms of every IPv4 class",
+			Bounds: "all 2^128 addresses", Outside: "egress rule lists"},
+		HarnessDef{ID: "H12.1-fqdn", Spec: HarnessSpec{Name: "vH_C12_findaction_fqdn", Pkg: "pkg/socks5", LoopBound: 30, LoopBounds: ral, TimeoutS: 120, Par: 8},
+			What:   "same for every domain-name destination of length 0..24: the empty name and the eight well-known local names in ANY letter case are refused without the loopback permission; every other name is DIRECT",
+			Bounds: "name length 0..24 (case split), all byte contents", Outside: "names longer than 24 bytes (no well-known local name is longer); what a resolver returns for other names"},
+	)
+	reg("C18",
+		HarnessDef{ID: "H18.1a", Spec: HarnessSpec{Name: "vH_C18_tunnel_frame", Pkg: "apis/common", LoopBound: 12, TimeoutS: 120},
+			What:   "PacketOverStreamTunnel.Write: frame = 00 | BE16(len) | data | ff, exactly one conn write of len+4 bytes; > 65535 bytes is an error and nothing is written",
+			Bounds: "every datagram length 0..70000 (symbolic), contents abstract", Outside: "-"},
+		HarnessDef{ID: "H18.1b", Spec: HarnessSpec{Name: "vH_C18_tunnel_roundtrip", Pkg: "apis/common", LoopBound: 12, LoopBounds: map[string]int{"ReadAtLeast": 5}, TimeoutS: 240, Par: 6},
+			What:   "two datagrams written then read back through a stream delivered in ARBITRARY chunks: same boundaries, same bytes (symbolic contents incl. marker values), then an error (no phantom datagram)",
+			Bounds: "datagram sizes 0..3 x 0..3 (case split), chunk sizes arbitrary 1..16, reader buffer 4", Outside: "larger datagrams only through H18.1a/H18.1c (the framing code has no size-dependent branch other than the two checked there)"},
+		HarnessDef{ID: "H18.1c", Spec: HarnessSpec{Name: "vH_C18_tunnel_malformed", Pkg: "apis/common", LoopBound: 12, LoopBounds: map[string]int{"ReadAtLeast": 5}, TimeoutS: 120, Par: 2},
+			What:   "PacketOverStreamTunnel.Read on an arbitrary (malformed, truncated) stream in arbitrary chunks: success <=> one well-formed frame that fits the buffer, payload delivered unchanged; otherwise an error with n == 0",
+			Bounds: "stream <= 10 bytes, buffer 4 bytes", Outside: "-"},
+		HarnessDef{ID: "H18.2a", Spec: HarnessSpec{Name: "vH_C18_wrapper_readfrom_v4", Pkg: "apis/common", LoopBound: 20, LoopBounds: ral, TimeoutS: 120},
+			What: "UDPAssociateWrapper.ReadFrom: IPv4 header + payload of size 0..3 is delivered with the same boundary, bytes and the header's address/port", Bounds: "payload 0..3 bytes (case split), all header/payload contents", Outside: "-"},
+		HarnessDef{ID: "H18.2b", Spec: HarnessSpec{Name: "vH_C18_wrapper_readfrom_v6", Pkg: "apis/common", LoopBound: 20, LoopBounds: ral, TimeoutS: 120},
+			What: "same with an IPv6 header", Bounds: "as H18.2a", Outside: "-"},
+		HarnessDef{ID: "H18.2c", Spec: HarnessSpec{Name: "vH_C18_wrapper_writeto", Pkg: "apis/common", LoopBound: 12, TimeoutS: 120},
+			What: "UDPAssociateWrapper.WriteTo: datagram = 00 00 00 01 | addr | port | payload, sent to the named destination", Bounds: "payload 0..3 bytes, all IPv4 addresses/ports", Outside: "IPv6/FQDN destinations in WriteTo"},
+	)
+	reg("C06",
+		HarnessDef{ID: "H6.1a", Spec: HarnessSpec{Name: "vH_C06_cache_bmc", Pkg: "pkg/replay", LoopBound: 8, TimeoutS: 240, Par: 8, Solver: "cvc5-int"},
+			What:   "ReplayCache.IsDuplicate vs an ideal bounded set over every history of 5 calls from a fresh cache: never-seen => false; seen less than the interval ago and followed by fewer distinct items than the capacity => true; generations never exceed the capacity",
+			Bounds: "5 calls, capacity 1..3 and interval 1 ns..1 h symbolic, 4-item alphabet (1-byte data: FNV-1a injective), arbitrary non-decreasing clock value at every time.Now inside a call, tag feature off", Outside: "histories longer than 5 calls; FNV collisions on longer data"},
+		HarnessDef{ID: "H6.1b", Spec: HarnessSpec{Name: "vH_C06_cache_bmc_tags", Pkg: "pkg/replay", LoopBound: 8, TimeoutS: 240, Par: 8, Solver: "cvc5-int"},
+			What: "same histories with arbitrary tags from {\"\", a, b}: a never-seen item is never reported", Bounds: "as H6.1a", Outside: "as H6.1a"},
+		HarnessDef{ID: "H6.1c", Spec: HarnessSpec{Name: "vH_C06_cache_disabled", Pkg: "pkg/replay", LoopBound: 8, TimeoutS: 60},
+			What: "nil cache and capacity 0 never report a replay and never panic", Bounds: "-", Outside: "-"},
+	)
+	reg("C20",
+		HarnessDef{ID: "H20.3a", Spec: HarnessSpec{Name: "vH_C20_url_to_config_nopanic", Pkg: "pkg/appctl", LoopBound: 12, TimeoutS: 120, Par: 10},
+			What:   "URLToClientConfig on EVERY string of up to 10 bytes, with the real net/url.Parse executed symbolically: an error or a config, never a panic",
+			Bounds: "strings <= 10 bytes (covers every prefix relation with \"mieru://\"); base64 and protobuf decoding opaque", Outside: "longer links (the only length-dependent step is the 8-byte prefix cut)"},
+	)
 }
